@@ -1,7 +1,7 @@
 \* thorough tier generation: transition cover of the complete graphs of the one-view stacks.
 CONSTANTS
   StackIds = {1, 2, 4, 7, 8}
-  Caps = {1, 2}
+  Caps = {1}
   DTTLs = {1, 2}
   Keys = {"k1", "k2"}
   Values = {"a", "b"}
